@@ -623,6 +623,24 @@ pub fn defs() -> Vec<CheckDef> {
                     }
                 };
             }
+            "C03" => {
+                d.modes = |t| vec![("main", t.pick(8, 14)), ("xproc", t.pick(4, 6))];
+                d.run = |ctx, mode| {
+                    if mode == "xproc" {
+                        // group-by routing must be the same function of the key in every PROCESS
+                        super::c01::run_xproc(ctx, &(by_id("C03").profile)())
+                    } else {
+                        by_id(&ctx.id).run(ctx, mode)
+                    }
+                };
+                d.replay = |ctx, v| {
+                    if v.get("xproc").is_some() {
+                        super::c01::replay(ctx, v)
+                    } else {
+                        by_id(&ctx.id).replay(ctx, v)
+                    }
+                };
+            }
             "C07" => d.modes = |t| vec![("main", t.pick(8, 12)), ("fold_ts", t.pick(2, 4)), ("fold_ts_loop", t.pick(2, 4))],
             "C08" => d.modes = |t| vec![("main", t.pick(8, 12)), ("interval", t.pick(3, 4))],
             _ => {}
